@@ -1163,6 +1163,13 @@ class SyncInterpreter(BaseInterpreter[TContext, TEvent]):
             if explicit_id
             else f"{self.id}:{key}:{uuid.uuid4()}"
         )
+        # ♻️ Re-using an explicit id replaces the previous child. Overwriting
+        #    the map entry alone orphaned it: still running, unreachable by
+        #    id, and never stopped by this interpreter's own `stop()`.
+        previous = self._actors.pop(actor_id, None)
+        if previous is not None:
+            self._actor_sources.pop(actor_id, None)
+            previous.stop()
         child = SyncInterpreter(actor_machine)
         child.parent = self
         child.id = actor_id
